@@ -97,6 +97,8 @@ type w9Inv struct {
 	slots       map[int64]bool
 	first       int64 // smallest invalidated slot time
 	startNano   int64 // fake clock when invalidate() was called
+	stampSeq    uint64 // runs that park passes between buckets: when the pass took its timestamp (cache2.invalidate reads the clock once, before the pass, and hands that value to every bucket); 0 otherwise (the pass is one scheduler step)
+	beforeTk    int    // ticket of this call at cache2.invalidate.before
 	startSeq    uint64
 	completeSeq uint64
 	done        bool // written by the task goroutine
@@ -183,6 +185,48 @@ func (w *w9World) beginPass() {
 	w.bbPlan = w.c.Intn(4, "bb_plan")
 	w.bbHits = 0
 	w.r.Event("inv", "next pass parks between buckets by plan %d", w.bbPlan)
+}
+
+// bindBefore: calls of invalidate() reach cache2.invalidate.before in the order in which they were
+// begun (one per scheduler step), so the tickets there belong to the calls in that order.
+func (w *w9World) bindBefore(tickets []*verifsim.Ticket) {
+	if !w.bbArmed || !w.beforeArmed {
+		return
+	}
+	for _, tk := range tickets {
+		if tk.Name != w9PtBefore {
+			continue
+		}
+		bound := false
+		for _, iv := range w.invs {
+			if iv.beforeTk == tk.ID {
+				bound = true
+			}
+		}
+		for _, iv := range w.invs {
+			if !bound && iv.beforeTk == 0 {
+				iv.beforeTk = tk.ID
+				break
+			}
+		}
+	}
+}
+
+// passBegins: the goroutine parked at cache2.invalidate.before with this ticket is about to read the
+// clock and enter its pass.
+func (w *w9World) passBegins(tk *verifsim.Ticket) {
+	if tk.Name != w9PtBefore {
+		return
+	}
+	w.beginPass()
+	if !w.bbArmed {
+		return
+	}
+	for _, iv := range w.invs {
+		if iv.beforeTk == tk.ID {
+			iv.stampSeq = w.r.Seq()
+		}
+	}
 }
 
 func (w *w9World) midPass(tickets []*verifsim.Ticket) *verifsim.Ticket {
@@ -641,21 +685,28 @@ func (w *w9World) classifyStale(g *w9Get, ld *w9Load, iv *w9Inv, t int64) (sig, 
 		// plain cache hit. B: a second load L1 over the same chunk started after the invalidation while
 		// L0's chunk update was pending (it restamps the shared chunk.loadStartedAt), and L0's update ran
 		// after L1's update (or L1 failed, or L1's update is still pending)
+		// ("after the invalidation": the pass hands every bucket the clock value it read before it
+		// began; a pass that is parked between buckets spans many steps, and a load that starts after
+		// that reading carries a later loadStartedAt although invalidate() has not returned yet)
+		after, when := iv.completeSeq, "after the invalidation"
+		if iv.stampSeq != 0 {
+			after, when = iv.stampSeq, fmt.Sprintf("after the invalidation pass had read the clock (seq %d; the pass was parked between buckets and returned at seq %d)", iv.stampSeq, iv.completeSeq)
+		}
 		for _, id := range w.loadIDs {
 			l1 := w.loads[id]
 			if l1 == ld || l1.q != ld.q || l1.step != ld.step || t < l1.from || t >= l1.to {
 				continue
 			}
-			if !(l1.startSeq > iv.completeSeq && l1.startSeq < ld.storedSeq) {
+			if !(l1.startSeq > after && l1.startSeq < ld.storedSeq) {
 				continue
 			}
 			switch {
 			case l1.finished && l1.err != nil:
-				return "stale-store-after-second-load-restamp", fmt.Sprintf("load %d over the same chunk started at seq %d, after the invalidation and before load %d's pending chunk update, restamped the chunk's shared loadStartedAt and then failed; load %d's update then stored its rows and cleared the invalidation mark", l1.id, l1.startSeq, ld.id, ld.id), true
+				return "stale-store-after-second-load-restamp", fmt.Sprintf("load %d over the same chunk started at seq %d, %s and before load %d's pending chunk update, restamped the chunk's shared loadStartedAt and then failed; load %d's update then stored its rows and cleared the invalidation mark", l1.id, l1.startSeq, when, ld.id, ld.id), true
 			case l1.storedSeq != 0 && l1.storedSeq < ld.storedSeq:
-				return "stale-store-after-second-load-restamp", fmt.Sprintf("load %d over the same chunk started at seq %d, after the invalidation and before load %d's pending chunk update, restamped the chunk's shared loadStartedAt; its update (seq %d) cleared the invalidation mark and load %d's later update (seq %d) overwrote the chunk with the older rows", l1.id, l1.startSeq, ld.id, l1.storedSeq, ld.id, ld.storedSeq), true
+				return "stale-store-after-second-load-restamp", fmt.Sprintf("load %d over the same chunk started at seq %d, %s and before load %d's pending chunk update, restamped the chunk's shared loadStartedAt; its update (seq %d) cleared the invalidation mark and load %d's later update (seq %d) overwrote the chunk with the older rows", l1.id, l1.startSeq, when, ld.id, l1.storedSeq, ld.id, ld.storedSeq), true
 			case l1.storedSeq == 0 || l1.storedSeq > g.initSeq:
-				return "stale-store-after-second-load-restamp", fmt.Sprintf("load %d over the same chunk started at seq %d, after the invalidation and before load %d's pending chunk update, restamped the chunk's shared loadStartedAt; load %d's update then stored its rows and cleared the invalidation mark (load %d's own update still pending)", l1.id, l1.startSeq, ld.id, ld.id, l1.id), true
+				return "stale-store-after-second-load-restamp", fmt.Sprintf("load %d over the same chunk started at seq %d, %s and before load %d's pending chunk update, restamped the chunk's shared loadStartedAt; load %d's update then stored its rows and cleared the invalidation mark (load %d's own update still pending)", l1.id, l1.startSeq, when, ld.id, ld.id, l1.id), true
 			}
 		}
 		if ld.storedSeq > iv.startSeq {
@@ -817,6 +868,9 @@ func (w *w9World) launchInvalidate() {
 	r.Event("inv", "%d begin step=%d slots=%v of %s region", iv.id, sc.step, rel, map[bool]string{true: "old", false: "recent"}[base == sc.oldBase])
 	if !w.beforeArmed {
 		w.beginPass() // otherwise when the ticket at cache2.invalidate.before is released
+		if w.bbArmed {
+			iv.stampSeq = iv.startSeq
+		}
 	}
 	go func() {
 		defer func() {
@@ -991,6 +1045,11 @@ func w9Exec(t *testing.T, r *verifsim.Run) {
 			fmt.Println("   |", e)
 		}
 	}
+	if os.Getenv("W9_DUMP") == "2" {
+		for i, d := range r.C.Trace {
+			fmt.Printf("   draw %d %s n=%d v=%d\n", i, d.Label, d.N, d.V)
+		}
+	}
 }
 
 func w9Run(t *testing.T, r *verifsim.Run) {
@@ -1104,6 +1163,7 @@ func w9Run(t *testing.T, r *verifsim.Run) {
 		}
 		idle := w.idleLoads()
 		tickets := w.pts.Parked()
+		w.bindBefore(tickets)
 		w.bbWatch(tickets)
 		// invalidate() has one caller in the server (Handler.invalidateLoop) and the shard has one
 		// invalidate iterator: passes over a shard do not overlap. While a pass is parked between two
@@ -1189,9 +1249,7 @@ func w9Run(t *testing.T, r *verifsim.Run) {
 				if tk.ID == a.tk {
 					r.Event("hook", "release ticket %d at %s", tk.ID, tk.Name)
 					r.Probe("parked_at_" + tk.Name)
-					if tk.Name == w9PtBefore {
-						w.beginPass()
-					}
+					w.passBegins(tk)
 				}
 			}
 			w.pts.Release(a.tk)
@@ -1263,6 +1321,8 @@ func (w *w9World) windDown(check bool) {
 			if mp := w.midPass(tks); mp != nil {
 				tk = mp
 			}
+			w.bindBefore(tks)
+			w.passBegins(tk)
 			w.pts.Release(tk.ID)
 			busy = true
 		}
